@@ -68,8 +68,10 @@ func (c *Clock) Next() time.Time {
 	}
 	d := time.Until(c.end) / time.Duration(c.left)
 	c.left--
-	if d < 2*time.Second {
-		d = 2 * time.Second
+	// (a floor: the shares of the first searches of a long list are small although most searches need only a fraction
+	// of theirs; the budget is a safety net, not a quota)
+	if d < 12*time.Second {
+		d = 12 * time.Second
 	}
 	return time.Now().Add(d)
 }
